@@ -269,6 +269,12 @@ func ReadMesh(in io.Reader) ([]ObjMesh, []string, error) {
 				return nil, nil, fmt.Errorf("failed to parse 'g' line %q: %w", line, err)
 			}
 
+			// Close out the material range of the group we're leaving
+			if trisSenseLastMat > 0 && len(workingGeom.meshMats) > 0 {
+				workingGeom.meshMats[len(workingGeom.meshMats)-1].PrimitiveCount = trisSenseLastMat
+			}
+			trisSenseLastMat = 0
+
 			if !workingGeom.empty() {
 				geoms = append(geoms, workingGeom.toMesh())
 				workingGeom = newObjMeshReading()
